@@ -71,13 +71,13 @@ func checkC13(c *km.Ctx) {
 	// the URL that is parsed is the parameter
 	parsedParam := false
 	for _, ci := range km.CallsIn(vf) {
-		if km.CalleeFull(ci.Common()) == "net/url.Parse" && km.Unwrap(ci.Common().Args[0]) == ssa.Value(vf.Params[1]) {
+		if km.CalleeFull(ci.Common()) == "net/url.Parse" && km.Unwrap(ci.Common().Args[0]) == ssa.Value(km.ParamAt(vf, 1)) {
 			parsedParam = true
 		}
 		if cl, isCall := ci.(*ssa.Call); isCall {
 			for _, ref := range *cl.Referrers() {
 				if ex, isEx := ref.(*ssa.Extract); isEx && ex.Index == 0 {
-					if arg, ok := parsedArg(ex); ok && arg == ssa.Value(vf.Params[1]) {
+					if arg, ok := parsedArg(ex); ok && arg == ssa.Value(km.ParamAt(vf, 1)) {
 						parsedParam = true
 					}
 				}
@@ -123,7 +123,7 @@ func checkC13(c *km.Ctx) {
 				if cl == nil || idx != 0 || km.CalleeFull(cl.Common()) != "regexp.MatchString" || !isElemOfField(cl.Common().Args[0], "AllowedRedirectURLRE") {
 					return false
 				}
-				return resolve(cl.Common().Args[1]) == ssa.Value(vf.Params[1])
+				return resolve(cl.Common().Args[1]) == ssa.Value(km.ParamAt(vf, 1))
 			})
 			switch {
 			case domEmpty && patEmpty:
@@ -209,7 +209,7 @@ func checkC13(c *km.Ctx) {
 	nTrue := 0
 	for _, rc := range s.RetCases(hp) {
 		v := km.Unwrap(rc.Results[0])
-		host, dom := ssa.Value(hp.Params[0]), ssa.Value(hp.Params[1])
+		host, dom := ssa.Value(km.ParamAt(hp, 0)), ssa.Value(km.ParamAt(hp, 1))
 		switch {
 		case km.ValStr(v) == "false":
 			continue
@@ -260,7 +260,7 @@ func checkC13(c *km.Ctx) {
 				var sites []ssa.Instruction
 				if f2 == fn {
 					sites = append(sites, ci)
-				} else if len(f2.Params) == 1 && km.Unwrap(a[1]) == ssa.Value(f2.Params[0]) {
+				} else if len(f2.Params) == 1 && km.Unwrap(a[1]) == ssa.Value(km.ParamAt(f2, 0)) {
 					for _, c2 := range km.CallsIn(fn) {
 						name := km.CalleeFull(c2.Common())
 						if i := strings.Index(name, "["); i > 0 {
@@ -612,7 +612,7 @@ func domainMatcherClosure(s *km.Sem, hp *ssa.Function, v ssa.Value) bool {
 			return false
 		}
 		h, d, isHP := hpCall(s, hp, cl.Common())
-		if !isHP || !hostOfParsedParam(h, 0) || km.Unwrap(d) != ssa.Value(fn.Params[0]) {
+		if !isHP || !hostOfParsedParam(h, 0) || km.Unwrap(d) != ssa.Value(km.ParamAt(fn, 0)) {
 			return false
 		}
 		n++
@@ -713,7 +713,7 @@ func anyDomainPredicate(s *km.Sem, hp *ssa.Function, g *ssa.Function) (int, int,
 						return 0, 0, false
 					}
 					hArg, dArg, isHP := hpCall(s, hp, hc.Common())
-					if !isHP || km.Unwrap(dArg) != ssa.Value(h.Params[0]) {
+					if !isHP || km.Unwrap(dArg) != ssa.Value(km.ParamAt(h, 0)) {
 						return 0, 0, false
 					}
 					// the host: a captured variable bound to a parameter of g
